@@ -145,6 +145,10 @@ class _BackendInterface(metaclass=ABCMeta):
     @abstractmethod
     async def unlock(self, key: Key, value: Value) -> bool: ...
 
+    async def _lock_probe(self, key: Key) -> bytes | None:
+        # is the backend that refused the lock on `key` alive?
+        return await self.ping(b"LOCK")
+
     @asynccontextmanager
     async def lock(
         self, key: Key, expire: float, wait: bool = True, check_interval: float = 0
@@ -161,7 +165,7 @@ class _BackendInterface(metaclass=ABCMeta):
                 # if redis unavailable and a backend have flag `safe`
                 # we will have a brake lock
                 try:
-                    if await self.ping(b"LOCK") is None:
+                    if await self._lock_probe(key) is None:
                         yield
                         return
                 except CacheBackendInteractionError:
